@@ -17,6 +17,7 @@ def add_argument(ex, p, args, kwargs, e):
         elif k == 'type': spec['type'] = v.data
         elif k == 'required': spec['required'] = z3.is_true(v.t)
         elif k == 'choices': spec['choices'] = [''.join(x.atoms) for x in v.items]
+        elif k == 'default': spec['default'] = v
     parser.data['args'].append(spec)
     return VNone()
 
@@ -28,7 +29,7 @@ def given_const(dest, spec):
     """The value argparse stores for `dest`, as a stable symbolic constant (so that specifications can refer to it)."""
     name = 'arg_' + dest
     if spec.get('action') == 'store_true': return VBool(z3.Bool(name))
-    ty = spec.get('type'); req = spec.get('required', False)
+    ty = spec.get('type'); req = spec.get('required', False) or ('default' in spec and not isinstance(spec['default'], VNone))       # with a default the value is never None
     if spec.get('nargs') == '+':
         if ty != 'int': raise Undecided('nargs type')
         return VPy(z3.Const(name, Py))       # None or a non-empty list of ints (constraint added by parse_args)
@@ -60,6 +61,7 @@ def get_default(ex, p, args, kwargs, e):
     parser = args[0]; name = ''.join(args[1].atoms)
     for spec in parser.data['args']:
         if spec['dest'] == name:
+            if 'default' in spec: return spec['default']
             return VBool(False) if spec.get('action') == 'store_true' else VNone()
     return VNone()
 
